@@ -22,7 +22,9 @@ ASSUMPTIONS = [
     "for mesh bases the line carries the elements of the constructed MeshBasis (its pruning is C05's subject)",
     "order of permutations inside one level is not compared (canonical forms sort complete levels)",
 ]
-PARTIAL = []
+PARTIAL = ["cache invariant by induction over query histories (buildOne_correct, ensureLevel_correct, "
+           "levels_history_independent, av_refines_spec) - proof in progress; this run evaluates it by correspondence only",
+           "is_subclass_correct (classical bases) - evaluated by correspondence and bounded oracle"]
 TRUSTED = ["dict insertion order / frozenset iteration order are not relied on: outputs are order-insensitive canonical forms"]
 
 MAXLEN_ORACLE = 9
